@@ -280,6 +280,8 @@ pub struct World {
     pub server_config: Option<String>,
     /// connections dialled to one of these ports get `first_atomic` pipes
     pub first_atomic_ports: Vec<u16>,
+    /// when set, every datagram handed to `send_to` is recorded as (from, to, bytes) – the wire sniffer of C12
+    pub udp_capture: Option<Vec<(SocketAddr, SocketAddr, Vec<u8>)>>,
 }
 
 impl World {
@@ -307,6 +309,7 @@ impl World {
             client_config: None,
             server_config: None,
             first_atomic_ports: Vec::new(),
+            udp_capture: None,
         }
     }
 
